@@ -176,6 +176,9 @@ def _conform_filename(
             emit_func(
                 replacement_node_ir,
                 emit_default_doc=False,  # emit_func.__name__ == "class_"
+                **_default_options(
+                    node=None, search=search, type_wanted=type_wanted
+                )()
             ),
             filename=filename,
             mode="wt",
